@@ -116,7 +116,7 @@ CHECKS = {
     'C17': dict(
         technique='runtime monitoring: reference-function monitor over one-op Instance::step() traces, exhaustive over a boundary operand pool (ASan+UBSan build)',
         text='Exploration, exhaustive over a fixed boundary pool: each of the 15 re-enabled opcodes is executed by the real interpreter (allow_disabled_opcodes on/off, executed / unexecuted branch) on every operand tuple of a 44-value pool '
-             '(thorough adds 640k random tuples); the result is compared with the string/bitwise/integer function the name denotes, invalid operands must give a script-level failure; crashes, traps and UB reports are violations.',
+             '(thorough adds 2.5M random tuples); the result is compared with the string/bitwise/integer function the name denotes, invalid operands must give a script-level failure; crashes, traps and UB reports are violations.',
         note='trusted: the reference functions in ref/script.py (exec_extended); leniencies listed in the evidence assumptions',
         ref='5 C17'),
     'C18': dict(
